@@ -10,8 +10,8 @@ open Neutrino.Ban
 #print axioms C13_key_canonical
 #print axioms lastBan_append
 #print axioms run_append
-#print axioms C13_enforced_counterexample
-#print axioms C13_enforced_partial
+#print axioms C13_enforced
+#print axioms C13_banPeer_clears_network
 #print axioms C13_version_enforced
 #print axioms C13_banPeer_enforced
 #print axioms C13_banned_refused
